@@ -8,7 +8,7 @@ from hypothesis import strategies as st
 
 from .. import gen, model
 from ..core import SKIP, Sub
-from ..util import carr, NAN, arr, compare, flags, tarr
+from ..util import carr, NAN, arr, compare, flags, tarr, epoch32
 
 ID = "C10"
 RULE = ("rate_of_change_test: dyadic series with missing on strictly increasing whole-second axes (regular/irregular, 1 s.."
@@ -39,6 +39,8 @@ def _speed():
 def times(t, carrier):
     if carrier == "epoch":
         return np.array(t, dtype="int64")
+    if carrier == "epoch32":
+        return epoch32(t)
     if carrier == "epoch_list":
         return list(t)
     return tarr(t)
@@ -64,7 +66,7 @@ def roc_case(draw, tier="quick"):
             if mode == "exact_off":
                 x[i] += sign * draw(st.sampled_from([Q, -Q]))
     x = draw(gen.overlay_missing(x))
-    return {"x": x, "t": t, "thr": thr, "tc": draw(st.sampled_from(["dt64", "dt64", "epoch", "epoch_list"]))}
+    return {"x": x, "t": t, "thr": thr, "tc": draw(st.sampled_from(["dt64", "dt64", "epoch", "epoch_list", "epoch32"]))}
 
 
 def roc_rates(x, t):
@@ -183,7 +185,7 @@ def speed_case(draw, tier="quick"):
     if draw(st.booleans()) and f < s:
         s, f = f, s
     return {"lon": lon, "lat": lat, "t": t, "suspect": s, "fail": f,
-            "tc": draw(st.sampled_from(["dt64", "dt64", "epoch"]))}
+            "tc": draw(st.sampled_from(["dt64", "dt64", "epoch", "epoch32"]))}
 
 
 def check_speed(case, rec):
